@@ -350,7 +350,12 @@ func applyOp(g *Group, o Object, op Op, rng *rand.Rand, truth []byte, scribble b
 		return sh
 	}
 	wipe := func(b crypto.Signature) {
-		if scribble {
+		if scribble && len(b) > 0 {
+			// the caller receives the next message into the same buffer: another signer's (well-formed) share, or junk
+			if next := g.Shares[(clampIdx(op.I, g.N)+1)%g.N]; len(next) == len(b) && rng.Intn(4) != 0 {
+				copy(b, next)
+				return
+			}
 			for i := range b {
 				b[i] = 0xEE
 			}
